@@ -138,6 +138,41 @@ fn exec<P: Px>(s: &SCase, stats: &mut Stats, viols: &mut Vec<Viol>) {
                 continue;
             }
         };
+        if s.mode == 0 && P::kind() == CompKind::F32 && ext == Ext::None {
+            // the copy must be exact in the bit patterns too: zeros of both signs in the source, and a destination that already
+            // holds the region with the opposite signs (a previous frame) - equal under ==, different in bits
+            let mut src2 = src.clone();
+            {
+                let comps = P::components_mut(&mut src2);
+                let mut rng = Rng::for_case(c.content.seed, "C12z", 0);
+                for y in 0..sh {
+                    let zero_row = rng.chance(1, 2);
+                    for i in y * sw * nc..(y + 1) * sw * nc {
+                        if zero_row || rng.chance(1, 5) {
+                            comps[i] = P::C::from_bits(if rng.chance(1, 2) { 0x8000_0000 } else { 0 });
+                        }
+                    }
+                }
+            }
+            let (l0, t0) = (l as usize, t as usize);
+            let mut dst: Vec<P> = (0..dw * dh).map(|i| src2[(i / dw + t0) * sw + i % dw + l0]).collect();
+            let want_bits = P::bits_of(&dst);
+            for cmp in P::components_mut(&mut dst).iter_mut() {
+                if cmp.to_f64() == 0.0 {
+                    *cmp = P::C::from_bits(cmp.bits() ^ 0x8000_0000);
+                }
+            }
+            let mut r = resizer(ext);
+            let res = {
+                let simg = firv::fr::images::TypedImageRef::<P>::new(c.sw, c.sh, &src2).unwrap();
+                let mut dimg = firv::fr::images::TypedImage::<P>::from_pixels_slice(c.dw, c.dh, &mut dst).unwrap();
+                r.resize_typed(&simg, &mut dimg, &opts)
+            };
+            stats.count("copies_over_an_equal_but_not_identical_destination", 1);
+            if res.is_err() || P::bits_of(&dst) != want_bits {
+                viols.push(Viol::new("same_size_not_a_copy", format!("{}: {:?}; the destination held the region with the signs of its zeros flipped and is not bit-identical to the source region afterwards", ext.name(), res)).sig(sig(ext)));
+            }
+        }
         match s.mode {
             0 => {
                 let (l, t) = (l as usize, t as usize);
